@@ -218,6 +218,10 @@ def registerLocalInputs (s : P2P) (now : Nat) : M P2P := do
     let (sync, actual) ← s.sync.addLocalInput h pi
     let s := { s with sync }
     if actual != NULL_FRAME then
+      -- the default-input frames in front of the very first (delayed) input are sent as well
+      let s ← if (rget s.localConnectStatus h).lastFrame == NULL_FRAME then
+          (List.range actual.toNat).foldlM (fun s (f : Nat) => s.queueOutgoingLocalInput h (PlayerInput.blank f)) s
+        else pure s
       let s := s.setStatus h fun c => { c with lastFrame := actual }
       s.queueOutgoingLocalInput h ⟨actual, pi.input⟩
     else pure s) s
